@@ -149,8 +149,17 @@ def worker(job):
                 inst = distgen.gen_instance(rng, graph="factor_graph", secp_hint_p=0.8)
             else:
                 # the pinning methods get more instances with computations pinned by a cost of 0 and tight capacities
-                inst = distgen.gen_instance(rng, graph=graph, pin_bias=method in distgen.PINNING and rng.random() < 0.6)
+                inst = distgen.gen_instance(rng, graph=graph, pin_bias=method in distgen.PINNING and rng.random() < 0.6,
+                                            hint_bias=method == "adhoc" and rng.random() < 0.7)
             P, outcome = api_run(inst, method)
+            if method == "adhoc":
+                # adhoc places in a random order and retries: the same instance is distributed several times, every outcome
+                # is judged (a valid mapping or a declared impossibility each time)
+                for _rep in range(5):
+                    P2, outcome2 = api_run(inst, method)
+                    P += P2
+                    R.count("adhoc_repeated_distributions")
+                    R.bump("outcomes", "%s:%s" % (method, outcome2))
             api = "api"
         ncomp = len(inst["footprints"])
         nontrivial = len(inst["agents"]) >= 2 and ncomp >= 3
